@@ -109,3 +109,9 @@ var _ = net.IPv4len
 // exactly one response datagram per query, to the right client, with that query's ID, question and answer
 // (scenario of C04_UDPConcurrent).
 func VerifH_C03_UDPListener() { VerifH_C04_UDPConcurrent() }
+
+// VerifH_C20_UDPReceiveBufferOwnership: the UDP read loop owns its receive buffers and refills them as soon as handleMsg
+// returns: whatever runs later (worker goroutines) must work on memory of its own. Two concurrent datagrams with the
+// shared buffer overwritten after each packet (scenario of C04_UDPConcurrent under the ownership property): every
+// response is derived from its own query's octets.
+func VerifH_C20_UDPReceiveBufferOwnership() { VerifH_C04_UDPConcurrent() }
